@@ -208,6 +208,18 @@ def r20_2(rep, prog):
         rep.violated('R20.2', inst, None, 'also written by %s' % sorted(extra), key='silk-counter-writers')
     else:
         rep.holds('R20.2', inst, None, 'writers %s (cleared by the whole-state memset at init)' % sorted(writers))
+    # the VAD step only vetoes: silk_Encode arms inDTX once per packet and a single frame of the packet (speech, too early,
+    # or the wrap-around refresh) must be able to clear it for the whole packet - so every store here is the constant 0
+    for n in f.all_nodes():
+        if n[0] in ('assign', 'cassign', 'inc'):
+            lv = sx.strip_paren(n[1] if n[0] == 'assign' else (n[2] if n[0] == 'cassign' else n[3]))
+            if sx.kind(lv) == 'field' and lv[3] == 'inDTX':
+                inst = '%s:%s only clears inDTX (`%s`)' % (prog.config, name, sx.show(n)[:40])
+                if n[0] == 'assign' and sx.int_val(sx.strip(n[2])) == 0:
+                    rep.holds('R20.2', inst, '%s:%s' % (f.file, sx.line(n)), 'constant 0')
+                else:
+                    rep.violated('R20.2', inst, '%s:%s' % (f.file, sx.line(n)), 'the per-frame VAD step stores a value other than 0: a later frame of a multi-frame packet re-arms the flag that an earlier frame (the refresh) cleared, and the refresh packet is lost',
+                                 key='silk-dtx-veto')
     # transfer: Opus VAD inactive (param activity = 0) forces the inactive arm
     trans = {}
     amb = None
@@ -218,6 +230,33 @@ def r20_2(rep, prog):
             amb = (c, outs)
             break
         trans[c] = list(vals)[0]
+    if amb and all(single(a) is not None for a, b in amb[1]) and len({single(a) for a, b in amb[1]}) == 1:
+        # the counter is determined but the stored DTX flag is not a function of the counter (it takes a value the
+        # analysis cannot pin down): the property must hold whichever value is stored, so try both resolutions
+        for resolve in (0, 1):
+            tr = {}
+            for c in range(0, 64):
+                outs = silk_transfer(prog, f, c, 0, ck, dk)
+                cs = {single(a) for a, b in outs}
+                fl = {single(b) for a, b in outs}
+                if len(cs) != 1 or None in cs:
+                    tr = None
+                    break
+                tr[c] = (list(cs)[0], list(fl)[0] if len(fl) == 1 and None not in fl else resolve)
+            if tr is None:
+                break
+
+            def step_r(c, act, tr=tr):
+                if act:
+                    return (0, 0)
+                c2, flag = tr[c]
+                return (1 if flag else 0, c2)
+            ok, detail = automaton_checks(step_r, 20.0, 1, 'silk')
+            if not ok:
+                rep.violated('R20.2', '%s:%s counter automaton (20 ms frames, Opus VAD inactive)' % (prog.config, name), f.where(),
+                             'at counter %d the stored DTX flag is not determined by the counter (value %s); if it is %d there: %s' %
+                             (amb[0], [absint.show(b) if b else None for a, b in amb[1]], resolve, detail), key='silk-dtx')
+                return None
     if amb:
         rep.unresolved('R20.2', '%s: inactive-frame transfer for counter=%d is not single valued: %s' % (name, amb[0], [(absint.show(a) if a else None, absint.show(b) if b else None) for a, b in amb[1]]), f.where())
         return None
